@@ -145,12 +145,23 @@ type vpListener struct {
 	maxAccept int
 	deadlines int
 	log       *vpEventLog
+	closeFails bool
+	permanent  bool
 }
+
+type vpTempErr struct{}
+
+func (vpTempErr) Error() string   { return "too many open files" }
+func (vpTempErr) Timeout() bool   { return false }
+func (vpTempErr) Temporary() bool { return true }
 
 func (l *vpListener) Accept() (net.Conn, error) {
 	l.accepts++
 	vpAssume(l.accepts <= l.maxAccept)
-	switch vpInt(0, 3) {
+	switch vpInt(0, 4) {
+	case 4:
+		// a temporary error that is not a timeout (EMFILE under load): the server keeps accepting
+		return nil, &net.OpError{Op: "accept", Net: "tcp", Err: vpTempErr{}}
 	case 0:
 		if l.next < len(l.conns) {
 			c := l.conns[l.next]
@@ -162,6 +173,7 @@ func (l *vpListener) Accept() (net.Conn, error) {
 	case 1:
 		return nil, &net.OpError{Op: "accept", Net: "tcp", Err: vpTimeoutErr{}}
 	case 2:
+		l.permanent = true
 		return nil, &net.OpError{Op: "accept", Net: "tcp", Err: errors.New("use of closed network connection")}
 	}
 	l.ctx.cancel()
@@ -171,6 +183,9 @@ func (l *vpListener) Accept() (net.Conn, error) {
 func (l *vpListener) Close() error {
 	l.closed++
 	l.log.add("listener-close")
+	if l.closeFails {
+		return errors.New("use of closed network connection")
+	}
 	return nil
 }
 func (l *vpListener) Addr() net.Addr                { return vpAddr{"192.0.2.1:49"} }
@@ -178,6 +193,7 @@ func (l *vpListener) SetDeadline(t time.Time) error { l.deadlines++; return nil 
 
 type vpSecrets struct {
 	refuse bool
+	quiet  bool
 	h      Handler
 	gets   int
 }
@@ -185,6 +201,9 @@ type vpSecrets struct {
 func (p *vpSecrets) Get(ctx context.Context, remote net.Addr) ([]byte, Handler, error) {
 	p.gets++
 	if p.refuse {
+		if p.quiet {
+			return nil, nil, nil // a provider that refuses without an error
+		}
 		return nil, nil, errors.New("no provider matches")
 	}
 	return []byte("k"), p.h, nil
@@ -208,11 +227,11 @@ func vpH_C17_serve() {
 		conns = append(conns, c)
 	}
 	ctx := newVPCtx()
-	ln := &vpListener{conns: conns, ctx: ctx, maxAccept: vpBound("accepts", 3), log: log}
+	ln := &vpListener{conns: conns, ctx: ctx, maxAccept: vpBound("accepts", 3), log: log, closeFails: vpBool()}
 	w := newVPWorld(newVPConn(nil))
 	w.mode = vpReplyNoRestart
 	handlerRuns := 0
-	sp := &vpSecrets{refuse: vpBool(), h: HandlerFunc(func(resp Response, req Request) {
+	sp := &vpSecrets{refuse: vpBool(), quiet: vpBool(), h: HandlerFunc(func(resp Response, req Request) {
 		handlerRuns++
 		log.add("handler")
 		resp.Reply(NewAcctReply(SetAcctReplyStatus(AcctReplyStatusSuccess)))
@@ -225,6 +244,7 @@ func vpH_C17_serve() {
 	log.add("serve-returned")
 	vpAssert(!vpBlocked(), "C17.serve.returns")
 	vpAssert(err == nil, "C17.serve.no-error")
+	vpAssert(ctx.off || ln.permanent, "C14.serve-survives-temporary-accept-errors")
 	vpAssert(ln.closed == 1, "C17.serve.listener-closed")
 	for i := 0; i < ln.next; i++ {
 		vpAssert(conns[i].closes >= 1, "C17.serve.every-accepted-connection-closed-before-return")
@@ -252,4 +272,23 @@ func vpH_C17_serve() {
 	vpAssert(vpMetric("tacquito_waitgroup_handle_routines_active") == g0, "C20.waitgroup-gauge-returns-to-rest")
 	vpAssert(vpMetric("tacquito_sessions_active") == s0, "C20.sessions_active-returns-to-rest-serve")
 	vpReach("C17.serve.end")
+}
+
+// with the PROXY protocol prefix enabled the first read of a connection is the prefix line: it
+// must be under a deadline as well, and a silent client must be reaped
+func vpH_C17_handle_proxy() {
+	prefix := []byte("PROXY TCP4 192.0.2.9 192.0.2.1 40000 49\r\n\x00")
+	_, pk := vpStream(1)
+	in := append(prefix, pk...)
+	conn := newVPConn(in)
+	conn.cut = vpIntC(0, len(in))
+	conn.cutStall = true
+	w := newVPWorld(conn)
+	w.mode = vpReplyNoRestart
+	s := &Server{loggerProvider: &vpLogger{}, proxy: true}
+	s.handle(newVPCtx(), newCrypter([]byte("k"), conn, true), &vpHandler{w: w, id: 0})
+	vpAssert(conn.closes == 1, "C17.proxy.closed-on-exit")
+	vpAssert(conn.readsUnarmed == 0, "C17.proxy.deadline-armed-before-every-read")
+	vpAssert(conn.zeroDeadlines == 0, "C17.proxy.deadline-is-finite")
+	vpReach("C17.proxy.end")
 }
